@@ -1903,6 +1903,9 @@ func (s *session) judge(primary bool) *verdict {
 	if !primary {
 		return v
 	}
+	if p.Class == "long-hold" {
+		s.longHoldCoverage(v)
+	}
 
 	// ---- accounting
 	count("sessions", 1)
@@ -1971,6 +1974,86 @@ func (s *session) judge(primary bool) *verdict {
 		run.Sample(map[string]any{"params": p, "delivery": s.summary, "first_events": strings.Join(head, " "), "files": len(s.files), "blocks": nblocks, "clean": !anyIssue})
 	}
 	return v
+}
+
+// longHoldCoverage counts what a long-hold session exercised: video frames
+// that the recorder could only hand to its muxer (the sample builder releases
+// frames in order, so a frame waits for every older packet) after more than
+// sorterWindow audio packets NEWER than the frame had been recorded, i.e. behind
+// audio that the muxer had already written to the file, and whether they were
+// all found in the recording.  From the delivery history and the matches only.
+func (s *session) longHoldCoverage(v *verdict) {
+	run, t := s.run, s.video
+	evOf := make([]int, len(t.pkts))
+	type aev struct {
+		ev  int
+		cap float64
+	}
+	var audio []aev
+	for i, e := range s.events {
+		if e.pkt < 0 {
+			continue
+		}
+		if e.trk == 1 {
+			evOf[e.pkt] = i
+		} else {
+			audio = append(audio, aev{i, s.audio.frames[e.pkt].capMs})
+		}
+	}
+	present := make([]bool, len(t.frames))
+	for _, m := range v.matches[1] {
+		if m.frame >= 0 {
+			present[m.frame] = true
+		}
+	}
+	required := v.required[1]
+	release, held, behind, behindPresent, maxNewer := -1, 0, 0, 0, 0
+	for i := range t.frames {
+		f := &t.frames[i]
+		own := -1
+		for k := f.p0; k < f.p0+f.pn; k++ {
+			own = max(own, evOf[k])
+		}
+		release = max(release, own)
+		if !required[i] {
+			continue
+		}
+		if release > own {
+			held++
+		}
+		newer := 0
+		for _, a := range audio {
+			if a.ev < release && a.cap > f.capMs {
+				newer++
+			}
+		}
+		maxNewer = max(maxNewer, newer)
+		// 25 packets (0.5 s) of margin for the alignment of the two tracks
+		if newer > sorterWindow+25 {
+			behind++
+			if present[i] {
+				behindPresent++
+			}
+		}
+	}
+	videoClean := true
+	for _, f := range v.findings {
+		videoClean = videoClean && f.trk != 1
+	}
+	run.Count("long_hold_sessions", 1)
+	run.Count("long_hold_late_video_packets", int64(len(t.late)))
+	run.Count("long_hold_video_frames_held_back", int64(held))
+	run.Count("long_hold_frames_released_behind_written_audio", int64(behind))
+	run.Count("long_hold_frames_released_behind_written_audio_present", int64(behindPresent))
+	if behind > 0 {
+		run.Count("long_hold_sessions_past_sorter_window", 1)
+		if videoClean && behindPresent == behind {
+			run.Count("long_hold_sessions_past_sorter_window_complete", 1)
+		}
+	}
+	if debug {
+		fmt.Printf("long-hold: late %v, %d frames held back, %d released behind written audio (%d present), at most %d newer audio packets recorded before a frame's release\n", t.late, held, behind, behindPresent, maxNewer)
+	}
 }
 
 var debug = os.Getenv("C20_DEBUG") != ""
@@ -2108,6 +2191,7 @@ func main() {
 	}
 
 	n := run.Pick(306, 5004)
+	nLong := run.Pick(8, 168) // long-hold sessions (index space longHoldBase + k), run first: they are the longest
 	thorough := !run.Quick()
 	if d := os.Getenv("C20_DEBUG"); d != "" {
 		var i uint64
@@ -2128,10 +2212,14 @@ func main() {
 			defer wg.Done()
 			for {
 				i := next.Add(1) - 1
-				if i >= uint64(n) {
+				if i >= uint64(n+nLong) {
 					return
 				}
-				runSession(run, i, thorough)
+				if i < uint64(nLong) {
+					runSession(run, longHoldBase+i, thorough)
+				} else {
+					runSession(run, i-uint64(nLong), thorough)
+				}
 			}
 		}()
 	}
@@ -2139,7 +2227,9 @@ func main() {
 	reportViolations(run)
 	e2eTier(run)
 
-	run.FloorCounter("sessions", int64(n*9/10))
+	run.FloorCounter("sessions", int64((n+nLong)*9/10))
+	run.FloorCounter("long_hold_sessions_past_sorter_window_complete", int64(run.Pick(4, 80)))
+	run.FloorCounter("long_hold_frames_released_behind_written_audio_present", int64(run.Pick(20, 400)))
 	run.FloorCounter("blocks_verified_exact", int64(run.Pick(5000, 200000)))
 	run.FloorCounter("audio_blocks_verified_exact", int64(run.Pick(2000, 80000)))
 	run.FloorCounter("video_blocks_verified_exact", int64(run.Pick(1500, 60000)))
